@@ -1335,7 +1335,7 @@ class CaseTable(object):
                 for global_iter in self._global_iterations:
                     record_type, source = global_iter[1], global_iter[3]
                     if record_type == table:
-                        if not source.startswith('root'):
+                        if source != 'root' and not source.startswith('root.'):
                             sources.add('root.' + source)
                         else:
                             sources.add(source)
